@@ -269,6 +269,60 @@ def toyDec : Bytes → Option Bytes
   | 0xC5 :: r => some (r.map (· ^^^ 0x5A))
   | _ => none
 
+/-! ## which requests the builders refuse; sent-or-refused, judged by the specification -/
+
+def bstmtVals : BStmt → List NVal
+  | BStmt.query _ vals => vals
+  | BStmt.prepared _ vals => vals
+
+/-- the requests gocql's builders refuse to build: custom payload below v4 (panic in
+    writeCustomPayload), keyspace below v5 (panic in writeQueryParams / writePrepareFrame; the v1
+    paths never look at it), a named value in a BATCH from v3 (error, CASSANDRA-10246) -/
+def Rejectable (v : Nat) : Req → Bool
+  | Req.query _ p pl => (!pl.isEmpty && decide (v < 4)) || (decide (v ≠ 1) && p.keyspace.isSome && decide (v < 5))
+  | Req.execute _ p pl => (!pl.isEmpty && decide (v < 4)) || (decide (v > 1) && p.keyspace.isSome && decide (v < 5))
+  | Req.prepare _ ks pl => (!pl.isEmpty && decide (v < 4)) || (ks.isSome && decide (v < 5))
+  | Req.batch _ stmts _ _ _ _ pl =>
+      (!pl.isEmpty && decide (v < 4)) ||
+      (decide (v > 2) && stmts.any (fun s => (bstmtVals s).any (fun x => x.name.isSome)))
+  | _ => false
+
+/-- what happened to a request handed to a connection (Conn.exec → buildFrame → write): an error / panic of
+    the builder means nothing is written -/
+inductive Outcome
+  | refused
+  | sent (frame : Bytes)
+deriving DecidableEq, Repr
+
+def outcomeOf : Except Err Bytes → Outcome
+  | .ok bs => .sent bs
+  | .error _ => .refused
+
+inductive Verdict
+  | ok            -- expressible, sent, and the specification decoder reads back exactly what was asked
+  | refusedOk     -- inexpressible and refused: nothing on the wire
+  | gap           -- inexpressible, of the kinds the unchanged builders do not refuse (KF-C03-1..10): not judged
+  | refusedExpressible
+  | undecodable
+  | differs
+  | sentInexpressible   -- an inexpressible request of the refused kinds went out all the same
+deriving DecidableEq, Repr
+
+/-- **the specification's judgement of an outcome**: the property's two clauses — an expressible request
+    goes out as a frame that decodes to exactly what was asked (version, tracing flag, request, nothing
+    left over; `eqv` compares requests, maps as maps), an inexpressible one is never sent. The known gaps
+    are kept out by exactly the predicate C03_inexpressible_rejected_partial excludes (¬ Rejectable). -/
+def judge (eqv : Req → Req → Bool) (v : Nat) (tracing : Bool) (want : Req) : Outcome → Verdict
+  | .refused =>
+    if FrameSpec.Expressible v want then .refusedExpressible
+    else if Rejectable v want then .refusedOk else .gap
+  | .sent f =>
+    if FrameSpec.Expressible v want then
+      match FrameSpec.decodeReq f with
+      | none => .undecodable
+      | some d => if d.version = v ∧ d.tracing = tracing ∧ d.rest = [] ∧ eqv d.req want = true then .ok else .differs
+    else if Rejectable v want then .sentInexpressible else .gap
+
 /-! ## what the Go struct asks for -/
 
 def askVal (x : GVal) : NVal :=
